@@ -378,6 +378,8 @@ def run(ctx):
     D.error_discipline(ctx, "R-C09.10", scope=lambda f: f.startswith(("db::Database::create_new", "db::Database::persist", "journal::", "<journal::", "file::", "batch::WriteBatch::commit", "tx::write_tx::BaseTransaction::commit", "tx::optimistic::write_tx::WriteTransaction::commit")))
 
     # ---- borrowed obligations (mechanisms owned by other properties that this property's verdict also rests on)
+    # a synced write journaled during an ingestion's finish() must not end up below the ingested tables' seqno (replay would skip it)
+    ctx.borrow("C14", ["R-C14.2"], "R-C09.11")
     # what was synced before a journal rotation survives only as long as the sealed journal is kept for every keyspace that needs it
     ctx.borrow("C10", ["R-C10.1"], "R-C09.9")
 
